@@ -340,7 +340,7 @@ def pre (st0 : St) (e : Ev) : St × Bool :=
   | .setReset b => ({ st with resetting := b }, false)
 
 theorem step_eq_pre (st : St) (e : Ev) :
-    step st e = cond (pre st e).2 (settle settleFuel (pre st e).1) (pre st e).1 := by
+    step st e = cond (pre st e).2 (settleAll (pre st e).1) (pre st e).1 := by
   cases e with
   | start id key blocking nfrags timeout =>
     simp only [step, pre]
